@@ -193,7 +193,7 @@ func (g *c01Gen) tables() []tref {
 	}
 	for k := 0; k < g.ntemps; k++ {
 		if g.temps[k] {
-			ts = append(ts, tref{true, k})
+			ts = append(ts, tref{true, k}, tref{true, k})
 		}
 	}
 	return ts
@@ -263,7 +263,7 @@ func (g *c01Gen) stmt(depth int, inLoop bool) *pnode {
 			col := ex[len(ex)-1]
 			ex[len(ex)-1] = ncol
 			return stmtNode(fmt.Sprintf("ALTER TABLE %s RENAME %s TO %s", t.sql(), col, ncol), changeEff(t, true))
-		case x < 68 && !inLoop:
+		case x < 67 && !inLoop:
 			var free []int
 			for k := 0; k < g.nfiles; k++ {
 				if !g.cur.files[k] {
@@ -283,7 +283,7 @@ func (g *c01Gen) stmt(depth int, inLoop bool) *pnode {
 				return stmtNode(fmt.Sprintf("CREATE TABLE %s (c1, c2, c3) AS SELECT c1, c2, c3 FROM %s", fileSQL(k), t.sql()), e)
 			}
 			return stmtNode(fmt.Sprintf("CREATE TABLE %s (c1, c2, c3)", fileSQL(k)), e)
-		case x < 72 && depth == 0:
+		case x < 74 && depth == 0:
 			var free []int
 			for k := 0; k < g.ntemps; k++ {
 				if !g.temps[k] {
@@ -301,6 +301,8 @@ func (g *c01Gen) stmt(depth int, inLoop bool) *pnode {
 				return stmtNode(fmt.Sprintf("DECLARE %s VIEW (c1, c2, c3) AS SELECT c1, c2, c3 FROM %s", tempName(k), t.sql()), e)
 			}
 			return stmtNode(fmt.Sprintf("DECLARE %s VIEW (c1, c2, c3)", tempName(k)), e)
+		case x < 78 && ok && t.temp:
+			return stmtNode("SELECT * FROM "+t.sql(), effect{kind: "readt", file: -1, temp: t.k})
 		case x < 78 && ok && !t.temp:
 			return stmtNode("SELECT * FROM "+t.sql(), effect{kind: "read", file: t.k, temp: -1})
 		case x < 81 && ok && !t.temp:
@@ -438,6 +440,14 @@ func (x *c01Walker) walk(ns []*pnode) {
 				} else {
 					x.r.emit(fmt.Sprintf("IRead %s %s", coqN(n.eff.file), x.r.w.optTabRef(t, true)), map[string]interface{}{"sql": n.sql, "result": showTab(t)})
 				}
+			case "readt":
+				t, err := x.r.s.read(tempName(n.eff.temp))
+				if err != nil {
+					x.r.emit("IOp (SFail [])", map[string]interface{}{"sql": n.sql, "error": err.Error()})
+					x.mode = "Error"
+				} else {
+					x.r.emit(fmt.Sprintf("IReadT %s %s", coqN(n.eff.temp), x.r.w.optTabRef(t, true)), map[string]interface{}{"sql": n.sql, "result": showTab(t)})
+				}
 			case "readfu":
 				t, err := x.r.s.readForUpdate(fileSQL(n.eff.file))
 				if err != nil {
@@ -468,11 +478,16 @@ func (x *c01Walker) walk(ns []*pnode) {
 	}
 }
 
-func c01LibRun(w *txnShard, v *c01Variant, cancelBeforeCommit bool) {
+func c01LibRun(w *txnShard, v *c01Variant, cancelBeforeCommit bool) (failure string) {
 	sc := newScratch()
 	defer sc.Close()
+	defer func() {
+		if e := recover(); e != nil {
+			failure = fmt.Sprint(e)
+		}
+	}()
 	writeInit(sc.Dir, v.init)
-	s := newLibSess(sc.Dir, 1)
+	s := newLibSess(sc.Dir, 5)
 	r := &recorder{s: s, w: w, nfiles: c01Files, ntemps: c01Temps}
 	ctx, cancel := context.WithCancel(context.Background())
 	defer cancel()
@@ -505,6 +520,7 @@ func c01LibRun(w *txnShard, v *c01Variant, cancelBeforeCommit bool) {
 	}
 	v.libDir = observeDir(sc.Dir, v.init)
 	v.items, v.show, v.notes = r.coqItems(), r.show, r.notes
+	return ""
 }
 
 func c01BinRun(v *c01Variant, strace []string) (RunResult, dirObs) {
@@ -592,7 +608,7 @@ func runC01(seed int64, tier string, out string) {
 	w := &txnShard{dir: out, prop: "C01", max: 1 << 30, meta: meta, caseType: "c01case", checkFn: "check_c01",
 		extra:  map[string][2]string{"sigcases": {"c01sig", "check_c01sig"}},
 		header: fmt.Sprintf(txnShardHeader, "Csvq.Harness.H01")}
-	nProg, slotsPer, nSigProg, nCancel := 36, 7, 8, 12
+	nProg, slotsPer, nSigProg, nCancel := 60, 7, 10, 12
 	if tier == "thorough" {
 		nProg, slotsPer, nSigProg, nCancel = 300, 1 << 30, 60, 150
 	}
@@ -620,7 +636,25 @@ func runC01(seed int64, tier string, out string) {
 			g.cur.files[k] = true
 		}
 		g.committed = g.cur.clone()
-		base := g.block(4+rnd.Intn(9), 0, false)
+		var base []*pnode
+		if rnd.Intn(2) == 0 {
+			// half of the procedures start with a temporary table
+			g.temps[0] = true
+			e := effect{kind: "declare", file: -1, temp: 0}
+			if rnd.Intn(2) == 0 {
+				k0 := 0
+				for k := range init {
+					k0 = k
+					break
+				}
+				_ = k0
+				e.reads = []int{0}
+				base = append(base, stmtNode(fmt.Sprintf("DECLARE %s VIEW (c1, c2, c3) AS SELECT c1, c2, c3 FROM %s", tempName(0), fileSQL(0)), e))
+			} else {
+				base = append(base, stmtNode(fmt.Sprintf("DECLARE %s VIEW (c1, c2, c3)", tempName(0)), e))
+			}
+		}
+		base = append(base, g.block(4+rnd.Intn(9), 0, false)...)
 		initKeys := make([]int, 0, len(init))
 		for k := range init {
 			initKeys = append(initKeys, k)
@@ -653,14 +687,22 @@ func runC01(seed int64, tier string, out string) {
 			}
 		}
 		var jobs []func()
+		var okVariants []*c01Variant
 		for _, v := range variants {
 			var b strings.Builder
 			renderNodes(v.tree, "", &b)
 			v.text = b.String()
-			c01LibRun(w, v, false)
+			if f := c01LibRun(w, v, false); f != "" {
+				meta.Direct = append(meta.Direct, DirectViolation{Key: "unexpected-failure", What: "the implementation failed where the harness needs it to work (reading a table back, ...): " + f,
+					Case: map[string]interface{}{"procedure": v.text}})
+				continue
+			}
+			okVariants = append(okVariants, v)
 			v := v
 			jobs = append(jobs, func() { v.bin, v.binDir = c01BinRun(v, nil) })
 		}
+		baseOK := len(okVariants) > 0 && okVariants[0] == variants[0]
+		variants = okVariants
 		// ---- SIGINT under strace on the procedure as generated ----------------------------------
 		type sigRun struct {
 			sc     string
@@ -669,7 +711,7 @@ func runC01(seed int64, tier string, out string) {
 			dir    dirObs
 		}
 		var sigs []*sigRun
-		if p < nSigProg {
+		if p < nSigProg && baseOK {
 			for _, sp := range sigPoints {
 				for _, n := range sp.n {
 					sr := &sigRun{sc: sp.sc, n: n}
@@ -736,10 +778,13 @@ func runC01(seed int64, tier string, out string) {
 			id++
 		}
 		// ---- context cancelled between the last statement and the automatic COMMIT ---------------
-		if variants[0].mode == "Normal" && nCancel > 0 && strings.Contains(variants[0].items, "SChange") {
+		if baseOK && variants[0].mode == "Normal" && nCancel > 0 && strings.Contains(variants[0].items, "SChange") {
 			nCancel--
 			v := &c01Variant{tree: base, init: init, text: variants[0].text}
-			c01LibRun(w, v, true)
+			if f := c01LibRun(w, v, true); f != "" {
+				meta.Direct = append(meta.Direct, DirectViolation{Key: "unexpected-failure", What: "library run with cancellation before the automatic COMMIT failed: " + f, Case: map[string]interface{}{"procedure": v.text}})
+				continue
+			}
 			extra := len(v.libDir.Extra) + len(v.libDir.Bad)
 			meta.Cases[fmt.Sprint(id)] = map[string]interface{}{"procedure": v.text, "cancelled": "context cancelled after the last statement, before Processor.AutoCommit (library run)",
 				"library_directory_after": v.libDir.show(), "harness_notes": v.notes}
